@@ -57,6 +57,9 @@ def run(chk):
         if m is None:
             chk.notes.append("part %s not available" % part)
             continue
-        m.run_all(chk)
+        if hasattr(m, "run_all"):
+            m.run_all(chk)
+        else:
+            chk.notes.append("part %s has no run_all yet" % part)
     chk.assumptions += ["the wallet's CoinsCheckPoint is not covered"]
     return chk.finish(exhaustive=False)
